@@ -33,9 +33,15 @@ func (f *File) Sync() error {
 		return err
 	}
 	vhook("fs.fsync.file", f.File.Name())
-	new := atomic.SwapUint32(&f.new, 1)
-	if new == 0 {
-		return syncDir(f.dir)
+	if atomic.LoadUint32(&f.new) == 0 {
+		// Only remember that the parent dir has been synced once that actually
+		// succeeded: if it fails the caller sees the error and a later Sync (a
+		// retried commit) must try again, otherwise that commit would be
+		// acknowledged while the file's directory entry may still be lost.
+		if err := syncDir(f.dir); err != nil {
+			return err
+		}
+		atomic.StoreUint32(&f.new, 1)
 	}
 	return nil
 }
